@@ -29,7 +29,7 @@ CHECKS = {
         "the alternative its index names, nothing is constructed over a live alternative or destroyed twice, local variants are destroyed, results carry the requested/source index, and conditional noexcept-specifications require a nothrow trait for every element operation the simulated body can raise from; the "
         "index/valueless primitives, base constructors, construct_alt and the destroy visitor have their defining shape; the six relational operators match [variant.relops] for every "
         "valueless/index-order scenario incl. functor and operand order; get/get_if/visit/hash reach an alternative only under their guard; the 32-way dispatch switches of a 40-alternative "
-        "instantiation dispatch the alternative of their label. Element constructors running exactly once inside construct_alt, converting-constructor overload selection and value equality with std::variant are NOT decided.",
+        "instantiation dispatch the alternative of their label. Element constructors running exactly once inside construct_alt, converting-constructor overload selection and value equality with std::variant are NOT decided. The special members of variant<P, int> exist / are trivial exactly as [variant.ctor]/[variant.assign]/[variant.dtor] require for seven payload kinds, and index 254/255 of 255/256-alternative variants is distinct from valueless (compiler witnesses).",
    note="Trusts the interpreter in sa/rules/c05.py and clang's pattern AST; element destructors are assumed not to throw; only the C++14+ (generic lambda, relaxed constexpr) configuration is visible."),
  "C06": dict(level="other", design="4.6",
    technique="object-identity typestate interpretation of the vtable slot functions (effect summaries per slot, both families) and of every member of any under all presence/type/alias scenarios with exceptional successors; writer/vtable/reader agreement table over 11 payload types; guard-dominance rules for the casts",
@@ -38,7 +38,7 @@ CHECKS = {
         "and their destructors, and a throw at the copy slot / payload constructor, keeps vtable-null <=> storage-dead and vtable type == stored type at every normal and exceptional exit, never "
         "constructs over a live object nor uses a dead one, has the presence/type postcondition of copy/move/swap/reset/assignment, and leaves *this untouched when an assignment throws; "
         "requires_allocation, construct(), vtable_for_type() (family and slot order) and cast<T>/cast<const T> agree for payloads on both sides of the in-place threshold (size, alignment, "
-        "nothrow move); pointer any_cast hands out storage only after the null and typeid(T) tests, reference forms go through check_any_cast. Equality of stored values is NOT decided.",
+        "nothrow move); pointer any_cast hands out storage only after the null and typeid(T) tests, reference forms go through check_any_cast. Equality of stored values is NOT decided. An assignment from another any takes the source into a temporary before the old content of *this is destroyed (the content may own the source).",
    note="Trusts the interpreters in sa/rules/c06.py and clang's AST; payload constructors/destructors are assumed to do what their names say; type_info identity across shared libraries is out of scope."),
  "C03": dict(level="other", design="4.3",
    technique="path-sensitive typestate (canonical last block) over every instantiated member for 4 block types, exact constant folding of the bit/block helper formulas over all bit offsets, linear bit-displacement/coverage analysis of the shift loops, guard entailment for at()/empty-buffer accesses, size/block-count agreement, promotion-decided comparison lint",
@@ -65,7 +65,7 @@ CHECKS = {
         "==/!= have the truth table of real&&imag equality along every path, unary -/+ negate both parts / return the operand; each binary operator X builds its result from the left operand and applies X= with the right; compound "
         "scalar forms touch exactly the parts complex arithmetic says; member assignments are (real<-real, imag<-imag) symmetric; the textbook and Annex G "
         "mul/div (first attempt, recovery, scaled quotient) compute ac-bd, ad+bc, (ac+bd)/(cc+dd), (bc-ad)/(cc+dd) as polynomials; Annex G boxing idioms "
-        "classify the component they box, the divisor scale is logb(max(|c|,|d|)), scalbn exponents agree; all closure-kind combinations compile.",
+        "classify the component they box, the divisor scale is logb(max(|c|,|d|)), scalbn exponents agree; all closure-kind combinations compile. A binary operation with at least one IEEE operand yields an IEEE xcomplex in either order (witnesses); the divisor is rescaled whenever its exponent is finite, under no further threshold.",
    note="Rounding, special-value outcomes and scaling accuracy are numeric and NOT decided; trusts the polynomial evaluator and clang/g++."),
  "C11": dict(level="other", design="4.9",
    technique="sibling-storage pairing rule over every member/constructor pattern of both container families, ==/!= shape, paired-iterator lockstep (symbolic positions), default-initialisation witnesses",
@@ -80,7 +80,7 @@ CHECKS = {
    text="Decides mutual consistency of the operators: the derived !=,<=,>=,> of both bases are evaluated under the three orderings with == and < as atoms; "
         "it++/it--/it+n/n+it/it-n/it[n] and the size_t extension are executed symbolically (result position, argument untouched, old value returned); "
         "every class built on a base must provide the primitives it derives from; the primitives of xbitset/xoptional/xcomplex/xstepping/xkey/xvalue "
-        "iterators must move every position field by exactly +-1/+-n (times the step) on every path, subtract/compare the same fields in the same orientation.",
+        "iterators must move every position field by exactly +-1/+-n (times the step) on every path, subtract/compare the same fields in the same orientation. begin/end/cbegin/cend/rbegin/rend/crbegin/crend of xdynamic_bitset_base (const and non-const) designate position 0 / size() and reverse_iterator(end) / reverse_iterator(begin) through whatever delegation.",
    note="Traversal visiting exactly the container's elements (begin/end of each container) is covered only for the two sequence families by C11; sub-iterators are assumed lawful."),
  "C07": dict(level="proof", design="4.7",
    technique="generated static_assert / must-compile / must-not-compile witnesses discharged by the compilers, plus designation rules on instantiated xclosure_wrapper<T&> / <T> (what get(), operator& and the constructors designate, helpers followed through their resolved callees) and on the assignment/swap/equality patterns",
@@ -88,21 +88,21 @@ CHECKS = {
         "accessors of xclosure_wrapper/xoptional/xmasked_value/xcomplex (incl. mixed closures), operator& of wrappers and proxies, forward_sequence and "
         "proxy_wrapper; must-compile witnesses with a type that can be neither copied nor moved prove 'without copying it', move-only temporaries prove "
         "ownership; must-not-compile witnesses reject writes through const closures; on the instantiated wrappers an lvalue closure stores &param, get() yields *m_wrappee and operator& m_wrappee, a value closure stores the value, "
-        "yields m_wrappee and &m_wrappee; nothing rebinds the stored pointer; assignment, swap and equality act on the referents of both operands.",
+        "yields m_wrappee and &m_wrappee; nothing rebinds the stored pointer; assignment, swap and equality act on the referents of both operands. Converting construction/assignment of an owning xoptional from an rvalue reference-closure proxy copies the referent (resolved payload constructor/assignment), and bitset element references write exactly the designated bit from the source (exact folding shared with C03).",
    note="Checked with clang++ -std=gnu++17 and g++ -std=gnu++14 (quick) and both compilers x C++14/17/20 (thorough); const rvalue sources may map to a const value; lifetime misuse in user code is out of scope."),
  "C14": dict(level="other", design="4.12",
    technique="call-site/effect lint closed under library helpers, interval check of byte reads, cursor discipline by a linear symbolic step of the block loop (cursor/remaining deltas, load offsets against the guard) and a per-remainder evaluation of the tail, and equality of the dataflow summary (initial value, per-block update, post-loop value per remainder as expression trees, helpers and locals followed) with the reference MurmurHash2/64A",
    text="Decides structural necessary conditions: entry points forward (buffer,length,seed) unchanged to the right kernel; std::hash<xbasic_fixed_string> "
         "hashes exactly (data(), size(), constant); no pointer-to-integer conversion, non-local state, foreign callee or wider-pointer block load in the "
         "call graph; every byte read entering arithmetic is zero-extended; in the 32-bit kernel the cursor advances by what the remaining length loses, each block load lies inside the bytes the loop guard guarantees and for every remainder 0..3 the tail reads exactly cursor[0..r-1]; in the 64-bit kernel the loop runs to start + (length & ~7) in steps of 8 with loads inside the block and load_bytes(end, length & 7) runs only under (length & 7) != 0; and the expression trees "
-        "of the hash value (initial value, block update, tail and finalisation for every remainder) equal the reference algorithm's (constants, shifts, byte lanes, mix order). Value equality for every input is not decided as such.",
+        "of the hash value (initial value, block update, tail and finalisation for every remainder) equal the reference algorithm's (constants, shifts, byte lanes, mix order). Value equality for every input is not decided as such. The masks applied to the length are folded with the conversions clang recorded (a narrower mask that is zero-extended is reported).",
    note="Reference trees are built in sa/rules/c14.py from MurmurHash2.cpp; an index-based block loop or a rewritten load_bytes is reported as analysis-broken (exit 2), never as a violation; x86-64 only."),
  "C20": dict(level="other", design="4.18",
    technique="API-misuse rule for every readlink site of the header (failure test, counted use, length < capacity by linear entailment, scalar locals read through), abstract string evaluation of prefix_path (cut = everything before the last separator), evaluation of endianness() for each value of the probe byte along every path under two include orders and three standards",
    text="Decides structural conditions on the Linux configuration: readlink's result is tested for failure, the path is built from the returned "
         "length (the buffer is never used as a C string unless a terminator byte is reserved), and the building branch implies length < capacity "
         "(so truncation is retried); prefix_path evaluates to cut(cut(executable_path())) + separator in whichever spelling (helpers, npos ?: forms, += / push_back); "
-        "endianness() yields big/little/mixed exactly when byte 0 of a whole-object copy of a probe with distinct bytes is its MSB/LSB/anything else, compile-time tests folded to this target.",
+        "endianness() yields big/little/mixed exactly when byte 0 of a whole-object copy of a probe with distinct bytes is its MSB/LSB/anything else, compile-time tests folded to this target. The path obtained from the OS is returned unedited (no erase/resize/replace after it was built).",
    note="What the OS returns for a given install location is outside static reach; only the Linux branch of xsystem.hpp is visible in this sandbox."),
  "C13": dict(level="other", design="4.11",
    technique="type/mask-based interval analysis of table subscripts (const locals read through) + alphabet/sentinel agreement + sentinel-guard dominance in the input loop + accumulator-constant consistency, with locals substituted and comparisons normalised (operand order, negation)",
